@@ -111,7 +111,7 @@ fn main() {
             emit_ops(ex, lines, after, consumed);
             if e == "commit" {
                 let r = evs.iter().find(|x| x["e"] == "cend").map(|x| x["r"].clone()).unwrap_or(json!(0));
-                lines.push(json!({"e": "cend", "ok": r.get("ok").is_some(), "hdr": mem_header(ex)}));
+                lines.push(json!({"e": "cend", "ok": r.get("ok").is_some(), "hdr": mem_header(ex), "disk": decode_header(&ex.store.prefix(320))}));
             } else if matches!(e.as_str(), "reopen" | "compact" | "integrity" | "abort" | "dropw") {
                 lines.push(json!({"e": "mend", "what": e, "hdr": mem_header(ex)}));
             }
